@@ -497,3 +497,12 @@ m("x7-ordering-equal-continues", "C03", GM, _TA_ORIG, _ta_ord(equal="total = new
 m("x7-ordering-greater-accepted", "C03", GM, _TA_ORIG, _ta_ord(greater="return Ok(new_total)"), "?")
 m("x7-ordering-less-returns", "C03", GM, _TA_ORIG, _ta_ord(less="return Ok(new_total)"), "?")
 m("x7-ordering-wildcard-swallows-equal", "C03", GM, _TA_ORIG, _ta_ord(other="                        std::cmp::Ordering::Greater => return Err(Error::CallbackOutOfRange),\n                        _ => total = new_total,"), "?")
+
+# read_obj / region store spelt with `?` (accepted since refactor round 5), each with one defect
+BY = "src/bytes.rs"
+m("x7-read-obj-fills-other", "C04", BY, "        self.read_slice(result.as_mut_slice(), addr).map(|_| result)",
+  "        let mut other: T = ByteValued::zeroed();\n        self.read_slice(other.as_mut_slice(), addr)?;\n        Ok(result)", "R4.5.read_obj")
+m("x7-read-obj-ignores-error", "C04", BY, "        self.read_slice(result.as_mut_slice(), addr).map(|_| result)",
+  "        let _ = self.read_slice(result.as_mut_slice(), addr);\n        Ok(result)", "R4.5.read_obj")
+m("x7-region-store-question-offset", "C03", MM, "        self.as_volatile_slice().and_then(|s| {\n            s.store(val, addr.raw_value() as usize, order)\n                .map_err(Into::into)\n        })",
+  "        let s = self.as_volatile_slice()?;\n        s.store(val, (addr.raw_value() as usize) & !7, order)\n            .map_err(Into::into)", "R3.5.region_forwarder")
